@@ -35,6 +35,9 @@ extern size_t gz_hint;       /* ghost: the value the relaxed load of a hint retu
 #define ZSHAPE(z) (__CPROVER_is_fresh(z, sizeof(TimeZoneInfo)) && 1 <= NTR(z) && NTR(z) <= ZMAXTR && \
   __CPROVER_is_fresh((z)->transitions_.data, NTR(z) * sizeof(Transition)) && 1 <= NTY(z) && NTY(z) <= 256 && \
   __CPROVER_is_fresh((z)->transition_types_.data, NTY(z) * sizeof(TransitionType)) && DEFTY(z) < NTY(z) && VSTR_WF((z)->abbreviations_))
+/* the part of the shape that a function reading only the type table needs (tr then points into the other table) */
+#define ZSHAPE_TY(z) (__CPROVER_is_fresh(z, sizeof(TimeZoneInfo)) && 1 <= NTY(z) && NTY(z) <= 256 && \
+  __CPROVER_is_fresh((z)->transition_types_.data, NTY(z) * sizeof(TransitionType)) && VSTR_WF((z)->abbreviations_))
 /* a transition type is sane (Load: offsets within a day, abbreviation index inside the string) */
 #define TYOK(z, k) ((k) < NTY(z) && -86400 < TY(z, k).utc_offset && TY(z, k).utc_offset < 86400 && TY(z, k).abbr_index <= (z)->abbreviations_.size)
 /* type in force just before transition i */
@@ -75,19 +78,21 @@ __CPROVER_ensures(1)
 __CPROVER_assigns();
 
 /* ---- kernel ---- */
-/* index of an element pointer inside the tables */
-#define TRIDX(z, p) ((size_t)((p) - (z)->transitions_.data))
-#define TYIDX(z, p) ((size_t)((p) - (z)->transition_types_.data))
-#define IN_TR(z, p) (__CPROVER_same_object(p, (z)->transitions_.data) && __CPROVER_POINTER_OFFSET(p) % sizeof(Transition) == 0 && TRIDX(z, p) < NTR(z))
-#define IN_TY(z, p) (__CPROVER_same_object(p, (z)->transition_types_.data) && __CPROVER_POINTER_OFFSET(p) % sizeof(TransitionType) == 0 && TYIDX(z, p) < NTY(z))
+/* pointer forms of the predicates (callers pass &TY(self,k) / &TR(self,i)) */
+#define TYOK_P(z, tt) (-86400 < (tt)->utc_offset && (tt)->utc_offset < 86400 && (tt)->abbr_index <= (z)->abbreviations_.size)
+#define LOCAL_IS_P(z, r, t, tt) ((r).offset == (tt)->utc_offset && (r).is_dst == (tt)->is_dst && (r).abbr == &(z)->abbreviations_.data[(tt)->abbr_index] && \
+  OVALID((r).cs) && OSEC((r).cs) == (Z)(t) + (tt)->utc_offset + EPOCHSEC)
 
 absolute_lookup LocalTime_TransitionType(const TimeZoneInfo* self, int_fast64_t unix_time, const TransitionType* tt)
-__CPROVER_requires(ZSHAPE(self) && IN_TY(self, tt) && TYOK(self, TYIDX(self, tt)))
-__CPROVER_ensures(LOCAL_IS(self, RV, unix_time, TYIDX(self, tt)))
+__CPROVER_requires(__CPROVER_is_fresh(self, sizeof(TimeZoneInfo)) && __CPROVER_is_fresh(tt, sizeof(TransitionType)) && TYOK_P(self, tt))
+__CPROVER_ensures(LOCAL_IS_P(self, RV, unix_time, tt))
 __CPROVER_assigns();
 
+/* tr is an entry of self's table whose type is sane and whose civil_sec is the local reading of its unix_time */
+#define TRWF_P(z, tr) ((tr)->type_index < NTY(z) && TYOK(z, (tr)->type_index) && OVALID((tr)->civil_sec) && \
+  OSEC((tr)->civil_sec) == (Z)(tr)->unix_time + TY(z, (tr)->type_index).utc_offset + EPOCHSEC)
 absolute_lookup LocalTime_Transition(const TimeZoneInfo* self, int_fast64_t unix_time, const Transition* tr)
-__CPROVER_requires(ZSHAPE(self) && IN_TR(self, tr) && WFI(self, TRIDX(self, tr)))
+__CPROVER_requires(ZSHAPE_TY(self) && __CPROVER_is_fresh(tr, sizeof(Transition)) && TRWF_P(self, tr))
 __CPROVER_requires(FITS64((Z)unix_time - tr->unix_time))
 __CPROVER_ensures(LOCAL_IS(self, RV, unix_time, tr->type_index))
 __CPROVER_assigns();
@@ -107,6 +112,79 @@ __CPROVER_requires((0 < gz_hint && gz_hint < NTR(self) && TR(self, gz_hint - 1).
 __CPROVER_ensures(tp < TR(self, 0).unix_time ? LOCAL_IS(self, RV, tp, DEFTY(self)) :
                   (tp >= TR(self, NTR(self) - 1).unix_time ? LOCAL_IS(self, RV, tp, TR(self, NTR(self) - 1).type_index) :
                    LOCAL_IS(self, RV, tp, TR(self, gz_i).type_index)))
+__CPROVER_assigns();
+
+
+/* ---- C02 (kernel): civil second -> instant(s) -------------------------------------------------------------
+ * order of civil seconds == order of their second ordinals (from lemma_dayord_lex) */
+#define lemma_osec_lex_REQ(a, b) (OVALID(a) && OVALID(b))
+#define lemma_osec_lex_ENS(a, b) ((LEXLT(a, b) ? 1 : 0) == (OSEC(a) < OSEC(b) ? 1 : 0) && (FIELDS_EQ(a, b) ? 1 : 0) == (OSEC(a) == OSEC(b) ? 1 : 0) && ZB(OSEC(a), 100) && ZB(OSEC(b), 100))
+/* per-type saturation bounds (Load: civil_max/min are the local readings of INT64_MAX/INT64_MIN in that type) */
+#define TYWF(z, k) (TYOK(z, k) && OVALID(TY(z, k).civil_max) && OVALID(TY(z, k).civil_min) && \
+  OSEC(TY(z, k).civil_max) == (Z)INT64_MAX + TY(z, k).utc_offset + EPOCHSEC && OSEC(TY(z, k).civil_min) == (Z)INT64_MIN + TY(z, k).utc_offset + EPOCHSEC)
+#define KIND_UNIQUE civil_lookup_UNIQUE
+#define KIND_SKIPPED civil_lookup_SKIPPED
+#define KIND_REPEATED civil_lookup_REPEATED
+/* the instant at which cs is displayed in a type with offset off, clamped to the time_point range */
+#define SAT64(v) ((v) > (Z)INT64_MAX ? (Z)INT64_MAX : ((v) < (Z)INT64_MIN ? (Z)INT64_MIN : (v)))
+#define READ_IN(cs, off) (OSEC(cs) - EPOCHSEC - (Z)(off))
+#define UNIQ_IS(r, v) ((r).kind == KIND_UNIQUE && (Z)(r).pre == (v) && (Z)(r).trans == (v) && (Z)(r).post == (v))
+
+civil_lookup MakeUnique_tp(time_point_s tp)
+__CPROVER_ensures(UNIQ_IS(RV, (Z)tp))
+__CPROVER_assigns();
+civil_lookup MakeUnique_unix(int_fast64_t unix_time)
+__CPROVER_ensures(UNIQ_IS(RV, (Z)unix_time))
+__CPROVER_assigns();
+
+/* the two readings of cs around transition *tr, as the code computes them from the table entry */
+#define PRE_OF(tr, cs) ((Z)(tr)->unix_time - 1 + (OSEC(cs) - OSEC((tr)->prev_civil_sec)))
+#define POST_OF(tr, cs) ((Z)(tr)->unix_time + (OSEC(cs) - OSEC((tr)->civil_sec)))
+#define TR_CIVIL_OK(tr) (OVALID((tr)->civil_sec) && OVALID((tr)->prev_civil_sec))
+civil_lookup MakeSkipped(const Transition* tr, fields cs)
+__CPROVER_requires(__CPROVER_is_fresh(tr, sizeof(Transition)) && TR_CIVIL_OK(tr) && OVALID(cs))
+__CPROVER_requires(FITS64(PRE_OF(tr, cs)) && FITS64(POST_OF(tr, cs)) && FITS64(OSEC(cs) - OSEC(tr->prev_civil_sec)) && FITS64(OSEC(tr->civil_sec) - OSEC(cs)))
+__CPROVER_ensures(RV.kind == KIND_SKIPPED && (Z)RV.pre == PRE_OF(tr, cs) && RV.trans == tr->unix_time && (Z)RV.post == POST_OF(tr, cs))
+__CPROVER_assigns();
+civil_lookup MakeRepeated(const Transition* tr, fields cs)
+__CPROVER_requires(__CPROVER_is_fresh(tr, sizeof(Transition)) && TR_CIVIL_OK(tr) && OVALID(cs))
+__CPROVER_requires(FITS64(PRE_OF(tr, cs)) && FITS64(POST_OF(tr, cs)) && FITS64(OSEC(tr->prev_civil_sec) - OSEC(cs)) && FITS64(OSEC(cs) - OSEC(tr->civil_sec)))
+__CPROVER_ensures(RV.kind == KIND_REPEATED && (Z)RV.pre == PRE_OF(tr, cs) && RV.trans == tr->unix_time && (Z)RV.post == POST_OF(tr, cs))
+__CPROVER_assigns();
+
+/* std::upper_bound by civil time: the end of the unique civil bracket (table sorted by civil_sec: Load checks it) */
+const Transition* valg_upper_bound_Transition_ByCivilTime(const Transition* first, const Transition* last, const Transition* value)
+__CPROVER_requires(1)
+__CPROVER_ensures(__CPROVER_same_object(RV, first) && __CPROVER_POINTER_OFFSET(first) <= __CPROVER_POINTER_OFFSET(RV) && __CPROVER_POINTER_OFFSET(RV) <= __CPROVER_POINTER_OFFSET(last))
+__CPROVER_ensures((gz_j >= 1 && !LEXLT(value->civil_sec, first[gz_j - 1].civil_sec) && LEXLT(value->civil_sec, first[gz_j].civil_sec)) ? RV == first + gz_j : 1)
+__CPROVER_assigns();
+
+/* cs lies in the civil bracket ending at transition j:  tr[j-1].civil_sec <= cs < tr[j].civil_sec */
+#define CBRACKET(z, j, cs) (1 <= (j) && (j) < NTR(z) && !LEXLT(cs, TR(z, (j) - 1).civil_sec) && LEXLT(cs, TR(z, j).civil_sec))
+#define MT_BEFORE(z, cs) (LEXLT(cs, TR(z, 0).civil_sec))
+#define MT_AFTER(z, cs) (!LEXLT(cs, TR(z, NTR(z) - 1).civil_sec))
+/* a table entry whose two civil readings are within two days of each other and of cs (so the code's differences fit) */
+#define NEAR(z, i, cs) (-((Z)1 << 40) < OSEC(cs) - OSEC(TR(z, i).civil_sec) && OSEC(cs) - OSEC(TR(z, i).civil_sec) < ((Z)1 << 62) && \
+                        -((Z)1 << 40) < OSEC(cs) - OSEC(TR(z, i).prev_civil_sec))
+
+civil_lookup MakeTime(const TimeZoneInfo* self, fields cs)
+__CPROVER_requires(ZSHAPE(self) && !self->extended_ && OVALID(cs))
+__CPROVER_requires(WFI(self, 0) && WFI(self, NTR(self) - 1) && TYWF(self, DEFTY(self)) && TYWF(self, TR(self, NTR(self) - 1).type_index))
+__CPROVER_requires(TR(self, 0).unix_time < 0 && TR(self, NTR(self) - 1).unix_time >= 0)
+__CPROVER_requires((!MT_BEFORE(self, cs) && !MT_AFTER(self, cs)) ? (CBRACKET(self, gz_j, cs) && WFI(self, gz_j) && WFI(self, gz_j - 1) && TYWF(self, TR(self, gz_j - 1).type_index) && \
+                    TR(self, gz_j - 1).unix_time < TR(self, gz_j).unix_time) : 1)
+/* uniqueness of the civil bracket: a hint that brackets cs is the same bracket */
+__CPROVER_requires((0 < gz_hint && gz_hint < NTR(self) && !LEXLT(cs, TR(self, gz_hint - 1).civil_sec) && LEXLT(cs, TR(self, gz_hint).civil_sec)) ? gz_hint == gz_j : 1)
+/* before the first transition */
+__CPROVER_ensures((MT_BEFORE(self, cs) && !LEXLT(TR(self, 0).prev_civil_sec, cs)) ? UNIQ_IS(RV, SAT64(READ_IN(cs, TY(self, DEFTY(self)).utc_offset))) : 1)
+__CPROVER_ensures((MT_BEFORE(self, cs) && LEXLT(TR(self, 0).prev_civil_sec, cs)) ? (RV.kind == KIND_SKIPPED && (Z)RV.pre == PRE_OF(&TR(self, 0), cs) && RV.trans == TR(self, 0).unix_time && (Z)RV.post == POST_OF(&TR(self, 0), cs)) : 1)
+/* after the last transition */
+__CPROVER_ensures((MT_AFTER(self, cs) && LEXLT(TR(self, NTR(self) - 1).prev_civil_sec, cs)) ? UNIQ_IS(RV, SAT64(READ_IN(cs, TY(self, TR(self, NTR(self) - 1).type_index).utc_offset))) : 1)
+__CPROVER_ensures((MT_AFTER(self, cs) && !LEXLT(TR(self, NTR(self) - 1).prev_civil_sec, cs)) ? (RV.kind == KIND_REPEATED && (Z)RV.pre == PRE_OF(&TR(self, NTR(self) - 1), cs) && RV.trans == TR(self, NTR(self) - 1).unix_time && (Z)RV.post == POST_OF(&TR(self, NTR(self) - 1), cs)) : 1)
+/* between two transitions: skipped at j, repeated at j-1, or unique in the type of j-1 */
+__CPROVER_ensures((!MT_BEFORE(self, cs) && !MT_AFTER(self, cs) && LEXLT(TR(self, gz_j).prev_civil_sec, cs)) ? (RV.kind == KIND_SKIPPED && (Z)RV.pre == PRE_OF(&TR(self, gz_j), cs) && RV.trans == TR(self, gz_j).unix_time && (Z)RV.post == POST_OF(&TR(self, gz_j), cs)) : 1)
+__CPROVER_ensures((!MT_BEFORE(self, cs) && !MT_AFTER(self, cs) && !LEXLT(TR(self, gz_j).prev_civil_sec, cs) && !LEXLT(TR(self, gz_j - 1).prev_civil_sec, cs)) ? (RV.kind == KIND_REPEATED && (Z)RV.pre == PRE_OF(&TR(self, gz_j - 1), cs) && RV.trans == TR(self, gz_j - 1).unix_time && (Z)RV.post == POST_OF(&TR(self, gz_j - 1), cs)) : 1)
+__CPROVER_ensures((!MT_BEFORE(self, cs) && !MT_AFTER(self, cs) && !LEXLT(TR(self, gz_j).prev_civil_sec, cs) && LEXLT(TR(self, gz_j - 1).prev_civil_sec, cs)) ? UNIQ_IS(RV, READ_IN(cs, TY(self, TR(self, gz_j - 1).type_index).utc_offset)) : 1)
 __CPROVER_assigns();
 
 #pragma CPROVER check pop
